@@ -66,7 +66,7 @@ type BFile struct {
 	MessageIndex   bool
 	SummaryOffsets bool
 	CRC            bool
-	Pad            int               // trailing pad bytes on every extensible record
+	Pad            int                  // trailing pad bytes on every extensible record
 	SummaryUnknown map[string][]Unknown // unknown records inserted before the named summary group ("" = at the end of the summary)
 	// StatsNoPerChannel: the statistics record carries an empty channel_message_counts map, which the specification
 	// defines as "this statistic is not available" (the other statistics are exact)
@@ -79,12 +79,12 @@ type BFile struct {
 }
 
 type builtChunk struct {
-	pos, length      uint64
-	start, end       uint64
-	csize, usize     uint64
-	compression      string
-	offs             []ChOff
-	msgIdxLen        uint64
+	pos, length  uint64
+	start, end   uint64
+	csize, usize uint64
+	compression  string
+	offs         []ChOff
+	msgIdxLen    uint64
 }
 
 // MsgLoc locates a message in the built file.
